@@ -373,6 +373,23 @@ def explore(ctx):
             failures.append({'kind': 'spec', 'what': 'a filter spelling written by the printer of the round-trip theorem is read differently by the real parser (rc %s vs %s)' % (ref['rc'], o['rc']),
                              'payload': {'query': t, 'canonical_spelling': [m for m in fmeta if m[0] == i][0][1], 'input_lines': flines,
                                          'output': o['out'].decode('utf8', 'replace')[:300], 'canonical_output': ref['out'].decode('utf8', 'replace')[:300]}})
+    quote_checked = 0
+    # quote style when the text itself contains quotes or backslashes: both styles, each with the escapes it needs
+    qrows = [{'s': "O'Brien"}, {'s': 'say "hi"'}, {'s': 'back\\slash'}, {'s': 'tab\there'}, {'s': 'plain'}]
+    qinp = ''.join(json.dumps(r) + '\n' for r in qrows).encode('utf8')
+    qpairs = [('"O\'Brien"', "'O\\'Brien'"), ('"say \\"hi\\""', "'say \"hi\"'"), ('"back\\\\slash"', "'back\\\\slash'"), ('"tab\\there"', "'tab\\there'"), ('"plain"', "'plain'")]
+    for dq, sq in qpairs:
+        outs2 = []
+        for litx in (dq, sq):
+            for tmpl in ('* | json | where s == %s | count', '* | json | where contains(s, %s) | count', '* | json | concat(%s, "") as t | where t == s | count'):
+                q = tmpl % litx
+                o = aglib.run_impl_one(q, qinp, 'json')
+                outs2.append((q, o['rc'], o['out']))
+                quote_checked += 1
+        for (qa, rca, oa), (qb, rcb, ob) in zip(outs2[:3], outs2[3:]):
+            if rca != rcb or oa != ob or rca != 0 or b'"_count":1' not in oa:
+                failures.append({'kind': 'spec', 'what': 'the two quote styles of one string literal give different results (or miss the row): %r -> %r, %r -> %r' % (qa, oa[:60], qb, ob[:60]),
+                                 'payload': {'query': qb, 'canonical_spelling': qa, 'input_lines': [json.dumps(r) + '\n' for r in qrows]}})
     # aliases versus their expansions
     alias_cases = [('* | apache', '* | parse "* - * [*] \\"* * *\\" * *" as ip, name, timestamp, method, url, protocol, status, contentlength'),
                    ('* | nginx | count by status', None), ('* | testmultioperator', '* | json | count')]
@@ -438,6 +455,6 @@ def explore(ctx):
                 'count vs count as _count, explicit default names for every aggregate/timeslice/total, ["name"] vs bare name, from before/after as, redundant parentheses, whitespace inside parentheses and after `!`, sort by x vs sort by x asc; byte comparison of -o json output; aliases vs expansions; --format vs -o format=, --file vs stdin; the grammar model on the same spellings; '
                 'non-trivial = >= 3 spelling choices exercised' % (len(base), nsp),
         'samples': [{'canonical': base[0][0], 'spelling': meta[1][1]}, {'canonical': base[1][0], 'spelling': meta[nsp + 2][1]}],
-        'spellings': len(jobs) - len(base), 'cli_cases': cli_checked, 'coq_printer_spellings': pp_wf, 'coq_printer_filter_spellings': len(fcoq), 'coq_printer_outside_wf': pp_notwf,
+        'spellings': len(jobs) - len(base), 'cli_cases': cli_checked, 'quote_style_cases': quote_checked, 'coq_printer_spellings': pp_wf, 'coq_printer_filter_spellings': len(fcoq), 'coq_printer_outside_wf': pp_notwf,
     }
     return {'coverage': cov, 'failures': failures}
